@@ -103,6 +103,20 @@ def run(ctx):
     st = sc.validate_all(ctx, items, sd, TRACE_SPEC[0], TRACE_SPEC[1], keyfn_of,
                          "page-resource history rejected by PageResource", "PR_STATS")
     ctx.sample_lines(items[0][1], 6, 300)
+    if ctx.tier != "quick":
+        demo_src = next(out for r, out, _ in items if r.plan == "Immix" and not r.layout)
+
+        def dup_grant(lines):      # the same pages granted twice
+            i = next(k for k, x in enumerate(lines) if x.startswith('{"ev":"PRAcquire"'))
+            return lines[:i + 1] + [lines[i]] + lines[i + 1:]
+
+        def drop_release(lines):   # a release that was never logged: counters no longer match
+            i = next(k for k, x in enumerate(lines) if x.startswith('{"ev":"PRRelease"'))
+            return lines[:i] + lines[i + 1:]
+        sc.binding_demo(ctx, sd, TRACE_SPEC[0], TRACE_SPEC[1], demo_src, "double_grant", dup_grant,
+                        "C28:disjoint")
+        sc.binding_demo(ctx, sd, TRACE_SPEC[0], TRACE_SPEC[1], demo_src, "lost_release", drop_release,
+                        "C28:")
     ctx.cov["driver"] = st
     ctx.cov["exhaustive"] = False
     ctx.cov["rule"] = ("one trace = the page-resource events of one gcdrive process (plan x feature "
